@@ -760,3 +760,1117 @@ Proof.
     + eapply within_mono; [eapply Hone; eauto|]. apply (mm_struct_list_mono filter (addr_sem path) t).
     + apply (IHt b Hb Hi).
 Qed.
+
+(* ================================================================================================ *)
+(** * 5. C13: accepted ==> every untagged instance fits its address type *)
+
+Lemma addr_sem_nil : addr_sem [] = 0.
+Proof. reflexivity. Qed.
+
+Lemma filter_covers_kind k : filter_covers (filter_kind k) k.
+Proof. intros o H; exact H. Qed.
+Lemma filter_covers_all k : filter_covers filter_all k.
+Proof. intros o H; reflexivity. Qed.
+
+(* the min/max walk of the instance's kind bounds every untagged instance, in ANY tree *)
+Theorem untagged_bounded objs fuel l i :
+  instances fuel objs = Ok l -> In i l -> untagged i = true ->
+  fst (find_min_max_addresses (filter_kind (i_kind i)) objs) <= i_addr i
+    <= snd (find_min_max_addresses (filter_kind (i_kind i)) objs).
+Proof.
+  intros H Hi Hu. rewrite walk_struct by apply filter_kind_blocks.
+  apply untagged_clean in Hu.
+  exact (inst_bounded objs _ (filter_kind_blocks _) fuel objs [] [] [] l i H Hi Hu (filter_covers_kind _) (0, 0)).
+Qed.
+
+Theorem untagged_bounded_all objs fuel l i :
+  instances fuel objs = Ok l -> In i l -> untagged i = true ->
+  fst (find_min_max_addresses filter_all objs) <= i_addr i <= snd (find_min_max_addresses filter_all objs).
+Proof.
+  intros H Hi Hu. rewrite walk_struct by apply filter_all_blocks.
+  apply untagged_clean in Hu.
+  exact (inst_bounded objs _ filter_all_blocks fuel objs [] [] [] l i H Hi Hu (filter_covers_all _) (0, 0)).
+Qed.
+
+Lemma big_enough_kind_none d k t :
+  address_type_of (d_config d) k = Some t -> big_enough_kind d k = None ->
+  integer_min t <= fst (find_min_max_addresses (filter_kind k) (d_objects d)) /\
+  snd (find_min_max_addresses (filter_kind k) (d_objects d)) <= integer_max t.
+Proof.
+  unfold big_enough_kind. intros -> H.
+  destruct (find_min_max_addresses (filter_kind k) (d_objects d)) as [mn mx]. cbn [fst snd].
+  destruct (integer_min t <=? mn) eqn:E1; cbn [negb] in H; [|discriminate].
+  destruct (mx <=? integer_max t) eqn:E2; cbn [negb] in H; [|discriminate]. lia.
+Qed.
+
+Lemma big_enough_all_kinds d k : address_types_big_enough d = None -> big_enough_kind d k = None.
+Proof.
+  unfold address_types_big_enough. intros H. rewrite first_error_none, Forall_forall in H.
+  apply H. destruct k; cbn; auto.
+Qed.
+
+Theorem untagged_fits d fuel l i t :
+  instances fuel (d_objects d) = Ok l -> In i l -> untagged i = true ->
+  address_types_big_enough d = None ->
+  address_type_of (d_config d) (i_kind i) = Some t ->
+  in_range (integer_ity t) (i_addr i) = true.
+Proof.
+  intros H Hi Hu Hbe Ht.
+  pose proof (untagged_bounded _ _ _ _ H Hi Hu) as Hb.
+  pose proof (big_enough_kind_none d _ t Ht (big_enough_all_kinds d _ Hbe)) as Hk.
+  unfold in_range, integer_min, integer_max in *. lia.
+Qed.
+
+(* trees in the class of C13_partial have only untagged instances *)
+Definition simple_obj (dev : list object) (o : object) : bool :=
+  obj_no_block_repeat o && obj_no_block_ref o && obj_ref_overrides_address o && obj_ref_repeat_known dev o.
+
+Lemma simple_clean dev : forall fuel objs bl path tags l i,
+  (forall o, In o (flat_map flat objs) -> simple_obj dev o = true) -> clean tags ->
+  instances_objs fuel dev objs bl path tags = Ok l -> In i l -> clean (i_tags i).
+Proof.
+  induction fuel as [|f IH]; intros objs bl path tags l i Hs Hct H Hi; [discriminate|].
+  rewrite instances_objs_S in H. apply ocat_map_ok in H. destruct H as (rs & HF & ->).
+  apply in_concat in Hi. destruct Hi as (r & Hr & Hi).
+  destruct (Forall2_in_r _ _ _ HF _ Hr) as (o & Ho & Hcall).
+  pose proof (Hs o (in_objs_flat _ _ Ho)) as Hso.
+  assert (Hnil : clean (tags ++ [])) by (rewrite app_nil_r; assumption).
+  destruct o as [c n off rep ch|rg|cm|bf|c n ov]; cbn [inst_one] in Hcall.
+  - destruct (block_inst_in _ _ _ _ _ _ _ _ _ _ Hcall Hi) as (k & r1 & Hk & Hrec & Hi1).
+    destruct rep as [rp|]; [discriminate|].
+    eapply IH; [|exact Hnil|exact Hrec|exact Hi1].
+    intros x Hx. apply Hs. apply in_flat_map in Hx. destruct Hx as (y & Hy & Hxy).
+    apply in_flat_map. exists (OBlock c n off None ch). split; [assumption|]. cbn. right.
+    apply in_flat_map. exists y; auto.
+  - injection Hcall as <-. apply leaf_instances_in in Hi. destruct Hi as (k & _ & ->). exact Hnil.
+  - injection Hcall as <-. apply leaf_instances_in in Hi. destruct Hi as (k & _ & ->). exact Hnil.
+  - injection Hcall as <-. apply leaf_instances_in in Hi. destruct Hi as (k & _ & ->). exact Hnil.
+  - destruct ov as [tgt off rep|tgt acc0 addr allow reset rep|tgt addr allow rep]; [discriminate| |].
+    + destruct (search_object tgt dev) as [t|] eqn:Es; [|discriminate]. destruct t; try discriminate.
+      injection Hcall as <-. apply leaf_instances_in in Hi. destruct Hi as (k & _ & ->). cbn [i_tags lf_tags].
+      unfold simple_obj in Hso. cbn in Hso. destruct addr as [a0|]; [|discriminate].
+      apply clean_app; split; [assumption|]. cbn [is_none opt_tag app].
+      assert (Hr0 : is_none rep && rep_is (rg_repeat r0) = false).
+      { destruct rep as [rp|]; [reflexivity|]. cbn in Hso. rewrite Es in Hso. cbn in Hso.
+        destruct (rg_repeat r0); [discriminate|reflexivity]. }
+      rewrite Hr0. cbn [opt_tag app]. intros t Ht. destruct allow; [destruct Ht as [<-|[]]; reflexivity|destruct Ht].
+    + destruct (search_object tgt dev) as [t|] eqn:Es; [|discriminate]. destruct t; try discriminate.
+      injection Hcall as <-. apply leaf_instances_in in Hi. destruct Hi as (k & _ & ->). cbn [i_tags lf_tags].
+      unfold simple_obj in Hso. cbn in Hso. destruct addr as [a0|]; [|discriminate].
+      apply clean_app; split; [assumption|]. cbn [is_none opt_tag app].
+      assert (Hr0 : is_none rep && rep_is (cm_repeat c0) = false).
+      { destruct rep as [rp|]; [reflexivity|]. cbn in Hso. rewrite Es in Hso. cbn in Hso.
+        destruct (cm_repeat c0); [discriminate|reflexivity]. }
+      rewrite Hr0. cbn [opt_tag app]. intros t Ht. destruct allow; [destruct Ht as [<-|[]]; reflexivity|destruct Ht].
+Qed.
+
+Lemma simple_tree_untagged objs fuel l i :
+  simple_tree objs = true -> instances fuel objs = Ok l -> In i l -> untagged i = true.
+Proof.
+  intros Hs H Hi. apply untagged_clean.
+  apply (simple_clean objs fuel objs [] [] [] l i); [|intros t Ht; destruct Ht|exact H|exact Hi].
+  intros o Ho. unfold simple_tree in Hs. rewrite forallb_forall in Hs.
+  rewrite preorder_objects_flat in Hs. exact (Hs o Ho).
+Qed.
+
+(* an instance of a kind exists ==> address_types_specified demands the kind's type *)
+Lemma instance_type_specified d fuel l i :
+  instances fuel (d_objects d) = Ok l -> In i l -> address_types_specified d = None ->
+  exists t, address_type_of (d_config d) (i_kind i) = Some t.
+Proof.
+  intros H Hi Hsp.
+  destruct (instance_has_object (d_objects d) fuel (d_objects d) [] [] [] l i (fun x Hx => in_objs_flat _ _ Hx) H Hi)
+    as (o & Ho & Hk).
+  destruct (address_type_of (d_config d) (i_kind i)) as [t|] eqn:Et; [eauto|].
+  rewrite <- preorder_objects_flat in Ho.
+  destruct (missing_type_rejected d o _ Ho Hk Et) as (e & He & _). congruence.
+Qed.
+
+(* ================================================================================================ *)
+(** * 6. C12: the expansion of the collision pass = the spec's instance list *)
+
+Definition claimed_one (rec : list lmethod -> Z -> list string -> outcome (list claimed))
+           (blocks : list lblock) (off : Z) (stack : list string) (m : lmethod) : outcome (list claimed) :=
+  let off' := off + m_address m in
+  let count := rep_count (m_repeat m) in
+  let stride := rep_stride (m_repeat m) in
+  chk64 off'
+    match m_kind m with
+    | MBlock name =>
+        match find_block name blocks with
+        | None => Fail AssertFail
+        | Some sb =>
+            ocat (map (fun i => chk64 (i * stride) (chk64 (off' + i * stride)
+                                  (rec (b_methods sb) (off' + i * stride)
+                                     (stack ++ [(name ++ index_suffix i)%string]))) ) (zrange count))
+        end
+    | MLeaf k =>
+        ocat (map (fun i => chk64 (i * stride) (chk64 (off' + i * stride)
+                      (Ok [{| c_name := String.concat "::" (stack ++ [m_name m]);
+                              c_index := if rep_is (m_repeat m) then Some i else None;
+                              c_address := off' + i * stride;
+                              c_allow := m_allow m;
+                              c_kind := k |}]))) (zrange count))
+    end.
+
+Lemma claimed_methods_S f blocks ms off stack :
+  claimed_methods (S f) blocks ms off stack =
+  ocat (map (claimed_one (claimed_methods f blocks) blocks off stack) ms).
+Proof. reflexivity. Qed.
+
+Lemma chk64_ok {A} z (x : outcome A) r : chk64 z x = Ok r -> x = Ok r.
+Proof. unfold chk64. destruct (in_i64 z); [auto|discriminate]. Qed.
+
+Lemma Forall2_concat {A B} (R : A -> B -> Prop) ls ls' :
+  Forall2 (Forall2 R) ls ls' -> Forall2 R (List.concat ls) (List.concat ls').
+Proof.
+  induction 1 as [|a b ls ls' Hab HF IH]; cbn; [constructor|]. apply Forall2_app; assumption.
+Qed.
+
+Lemma Forall2_same_index {A B C} (R : B -> C -> Prop) (f : A -> B -> Prop) (g : A -> C -> Prop) l ra rb :
+  Forall2 f l ra -> Forall2 g l rb ->
+  (forall x ya yb, In x l -> f x ya -> g x yb -> R ya yb) -> Forall2 R ra rb.
+Proof.
+  intros Ha. revert rb. induction Ha as [|x ya l ra Hxa Ha IH]; intros rb Hb HR; inversion Hb; subst; constructor.
+  - eapply HR; eauto. left; reflexivity.
+  - apply IH; [assumption|]. intros x0 y1 y2 Hx0. apply HR. right; assumption.
+Qed.
+
+Lemma Forall2_map_same {A B C} (R : B -> C -> Prop) (f : A -> B) (g : A -> C) l :
+  (forall x, In x l -> R (f x) (g x)) -> Forall2 R (map f l) (map g l).
+Proof.
+  induction l as [|x t IH]; intros H; cbn; constructor; [apply H; left; reflexivity|].
+  apply IH. intros y Hy. apply H. right; assumption.
+Qed.
+
+Lemma append_nil_r (s : string) : (s ++ "")%string = s.
+Proof. induction s as [|a s IH]; cbn; [reflexivity|]. rewrite IH. reflexivity. Qed.
+
+(* singleton-producing guarded maps *)
+Lemma ocat_guarded_singletons {A} (g : Z -> A) (z1 z2 : Z -> Z) l r :
+  ocat (map (fun i => chk64 (z1 i) (chk64 (z2 i) (Ok [g i]))) l) = Ok r -> r = map g l.
+Proof.
+  revert r. induction l as [|x t IH]; intros r H; cbn in H.
+  - injection H as <-. reflexivity.
+  - apply ocat_cons_ok in H. destruct H as (a & b & Ha & Hb & ->).
+    apply chk64_ok in Ha. apply chk64_ok in Ha. injection Ha as <-. rewrite (IH b Hb). reflexivity.
+Qed.
+
+(* fuel monotonicity of the lowering *)
+Lemma lower_list_ext gm gm' objs r :
+  (forall o r0, In o objs -> gm o = Ok r0 -> gm' o = Ok r0) ->
+  lower_list gm objs = Ok r -> lower_list gm' objs = Ok r.
+Proof.
+  revert r. induction objs as [|o t IH]; intros r Hext H; cbn in *; [assumption|].
+  destruct (gm o) as [[m bl]|k] eqn:E; [|discriminate].
+  rewrite (Hext o _ (or_introl eq_refl) E).
+  destruct (lower_list gm t) as [[ms bls]|k] eqn:E2; [|discriminate].
+  rewrite (IH _ (fun o0 r0 Hin => Hext o0 r0 (or_intror Hin)) eq_refl). assumption.
+Qed.
+
+Lemma get_method_S_block fx f dev c n off rep ch :
+  get_method fx (S f) dev (OBlock c n off rep ch) =
+  match lower_list (get_method fx f dev) ch with
+  | Fail k => Fail k
+  | Ok (ms, bls) =>
+      Ok ({| m_name := n; m_kind := MBlock n; m_address := off; m_repeat := rep; m_allow := false |},
+          {| b_name := n; b_root := false; b_methods := ms |} :: bls)
+  end.
+Proof. reflexivity. Qed.
+
+Lemma get_method_S_ref fx f dev c n ov :
+  get_method fx (S f) dev (ORef c n ov) =
+  match search_object (override_target ov) dev with
+  | None => Fail AssertFail
+  | Some tgt =>
+      match apply_override fx c ov tgt with
+      | None => Fail AssertFail
+      | Some o' =>
+          match get_method fx f dev o' with
+          | Fail k => Fail k
+          | Ok (m, bls) => Ok (set_method_name m n, bls)
+          end
+      end
+  end.
+Proof. reflexivity. Qed.
+
+Lemma get_method_mono fx dev : forall f o r, get_method fx f dev o = Ok r -> get_method fx (S f) dev o = Ok r.
+Proof.
+  induction f as [|f IH]; intros o r H; [discriminate|].
+  destruct o as [c n off rep ch|rg|cm|bf|c n ov]; try exact H.
+  - rewrite get_method_S_block in H |- *.
+    destruct (lower_list (get_method fx f dev) ch) as [[ms bls]|k] eqn:E; [|discriminate].
+    rewrite (lower_list_ext _ (get_method fx (S f) dev) ch _ (fun o0 r0 _ => IH o0 r0) E). exact H.
+  - rewrite get_method_S_ref in H |- *.
+    destruct (search_object (override_target ov) dev) as [tgt|]; [|discriminate].
+    destruct (apply_override fx c ov tgt) as [o'|]; [|discriminate].
+    destruct (get_method fx f dev o') as [[m bls]|k] eqn:E; [|discriminate].
+    rewrite (IH _ _ E). exact H.
+Qed.
+
+Section Corr.
+  Variable fx : bool.
+  Variable dev : list object.
+  Variable BL : list lblock.
+
+  Definition in_tree (o : object) : Prop := In o (flat_map flat dev).
+
+  (* b is the lowering of (the children of) a block of the tree carrying b's name *)
+  Definition gen_block (b : lblock) : Prop :=
+    exists c off rep objs f bls,
+      in_tree (OBlock c (b_name b) off rep objs) /\
+      lower_list (get_method fx f dev) objs = Ok (b_methods b, bls).
+
+  (* blocks with the same name have the same children (names_unique gives distinct block names) *)
+  Definition unique_blocks : Prop :=
+    forall c1 n o1 r1 objs1 c2 o2 r2 objs2,
+      in_tree (OBlock c1 n o1 r1 objs1) -> in_tree (OBlock c2 n o2 r2 objs2) -> objs1 = objs2.
+
+  Hypothesis Huniq : unique_blocks.
+  Hypothesis HBL : forall name b, find_block name BL = Some b ->
+    (exists c off rep objs, in_tree (OBlock c name off rep objs)) -> gen_block b.
+
+  Definition render (bi : string * Z) : string := (fst bi ++ index_suffix (snd bi))%string.
+
+  Definition corr (c : claimed) (i : instance) : Prop :=
+    c_kind c = i_kind i /\ claimed_display c = instance_display i /\ c_address c = i_addr i /\
+    (i_allow i = c_allow c \/ (fx = false /\ has_tag TOwnFlag i = true /\ i_allow i = true)).
+
+  Lemma find_block_name name b : find_block name BL = Some b -> b_name b = name.
+  Proof.
+    unfold find_block. intros H. apply List.find_some in H. destruct H as [_ H]. apply String.eqb_eq in H. exact H.
+  Qed.
+
+  (* a leaf method against a leaf of the spec *)
+  Lemma leaf_corr rec off stack bl path tags (m : lmethod) k (lf : leaf) a :
+    claimed_one rec BL off stack m = Ok a ->
+    m_kind m = MLeaf k -> lf_kind lf = k -> m_name m = lf_name lf -> m_address m = lf_addr lf ->
+    m_repeat m = lf_rep lf ->
+    (lf_allow lf = m_allow m \/ (fx = false /\ In TOwnFlag (lf_tags lf) /\ lf_allow lf = true)) ->
+    off = addr_sem path -> stack = map render bl ->
+    Forall2 corr a (leaf_instances bl path tags lf).
+  Proof.
+    intros Hc Hk Hlk Hn Ha Hr Hfl Hoff Hst. unfold claimed_one in Hc. cbn zeta in Hc.
+    apply chk64_ok in Hc. rewrite Hk in Hc. apply ocat_guarded_singletons in Hc. subst a.
+    unfold leaf_instances. rewrite Hr. apply Forall2_map_same. intros i Hi.
+    unfold corr, claimed_display, instance_display, i_addr.
+    cbn [c_kind c_name c_index c_address c_allow i_kind i_blocks i_name i_index i_path i_allow i_tags].
+    rewrite addr_sem_app. unfold step_sem. cbn [s_addr s_idx s_rep]. subst off stack. rewrite Hn, Ha.
+    split; [auto|]. split; [|split].
+    - destruct (rep_is (lf_rep lf)); [reflexivity|]. rewrite append_nil_r. reflexivity.
+    - lia.
+    - destruct Hfl as [Hfl|(Hf & Hin & Hal)]; [left; assumption|right].
+      repeat split; auto. unfold has_tag. cbn [i_tags]. apply existsb_exists. exists TOwnFlag. split; [|reflexivity].
+      apply in_or_app. right. assumption.
+  Qed.
+
+  Lemma corr_main : forall f2 objs f1 ms bls f3 off stack bl path tags cl il,
+    (forall x, In x objs -> in_tree x) ->
+    lower_list (get_method fx f1 dev) objs = Ok (ms, bls) ->
+    claimed_methods f2 BL ms off stack = Ok cl ->
+    instances_objs f3 dev objs bl path tags = Ok il ->
+    off = addr_sem path -> stack = map render bl ->
+    Forall2 corr cl il.
+  Proof.
+    induction f2 as [|f2 IH]; intros objs f1 ms bls f3 off stack bl path tags cl il Htree Hlow Hcl Hil Hoff Hst;
+      [discriminate|].
+    destruct f3 as [|f3]; [discriminate|].
+    rewrite claimed_methods_S in Hcl. rewrite instances_objs_S in Hil.
+    (* a block method (own block or lowered block ref) against block_inst *)
+    assert (Hblock : forall (m : lmethod) name off0 rep ch tg a b,
+              (exists c' off' rep', in_tree (OBlock c' name off' rep' ch)) ->
+              m_kind m = MBlock name -> m_address m = off0 -> m_repeat m = rep ->
+              claimed_one (claimed_methods f2 BL) BL off stack m = Ok a ->
+              block_inst (instances_objs f3 dev) bl path name off0 rep ch tg = Ok b ->
+              Forall2 corr a b).
+    { intros m name off0 rep ch tg a b (c' & off' & rep' & Hin) Hk Ha Hr Hc Hb.
+      unfold claimed_one in Hc. cbn zeta in Hc. apply chk64_ok in Hc. rewrite Hk in Hc.
+      destruct (find_block name BL) as [sb|] eqn:Ef; [|discriminate].
+      destruct (HBL name sb Ef) as (c2 & off2 & rep2 & objs2 & fg & blsg & Hin2 & Hlow2); [eauto|].
+      rewrite (find_block_name _ _ Ef) in Hin2.
+      pose proof (Huniq _ _ _ _ _ _ _ _ _ Hin2 Hin) as ->.
+      apply ocat_map_ok in Hc. destruct Hc as (ra & HFa & ->).
+      unfold block_inst in Hb. apply ocat_map_ok in Hb. destruct Hb as (rb & HFb & ->).
+      rewrite Hr in HFa. apply Forall2_concat.
+      eapply Forall2_same_index; [exact HFa|exact HFb|].
+      intros i ya yb Hi Hya Hyb. cbn beta in Hya, Hyb. apply chk64_ok in Hya. apply chk64_ok in Hya.
+      eapply IH; [|exact Hlow2|exact Hya|exact Hyb| |].
+      - intros x Hx. eapply flat_children; eauto.
+      - rewrite addr_sem_app. unfold step_sem. cbn. subst off. rewrite Ha. lia.
+      - subst stack. rewrite map_app. reflexivity. }
+    (* one object *)
+    assert (Hone : forall o m blo a b, in_tree o -> get_method fx f1 dev o = Ok (m, blo) ->
+              claimed_one (claimed_methods f2 BL) BL off stack m = Ok a ->
+              inst_one (instances_objs f3 dev) dev bl path tags o = Ok b -> Forall2 corr a b).
+    { intros o m blo a b Hin Hgm Ha Hb.
+      destruct f1 as [|f1]; [discriminate|].
+      destruct o as [c n off0 rep ch|rg|cm|bf|c n ov]; cbn [get_method] in Hgm; cbn [inst_one] in Hb.
+      - destruct (lower_list (get_method fx f1 dev) ch) as [[ms' bls']|k]; [|discriminate].
+        injection Hgm as <- <-. eapply Hblock; [exists c, off0, rep; exact Hin| | | |exact Ha|exact Hb]; reflexivity.
+      - injection Hgm as <- <-. injection Hb as <-.
+        eapply leaf_corr; [exact Ha|reflexivity|reflexivity|reflexivity|reflexivity|reflexivity|left; reflexivity|exact Hoff|exact Hst].
+      - injection Hgm as <- <-. injection Hb as <-.
+        eapply leaf_corr; [exact Ha|reflexivity|reflexivity|reflexivity|reflexivity|reflexivity|left; reflexivity|exact Hoff|exact Hst].
+      - injection Hgm as <- <-. injection Hb as <-.
+        eapply leaf_corr; [exact Ha|reflexivity|reflexivity|reflexivity|reflexivity|reflexivity|left; reflexivity|exact Hoff|exact Hst].
+      - destruct ov as [tgt off0 rep|tgt acc0 addr own reset rep|tgt addr own rep]; cbn [override_target] in Hgm.
+        + destruct (search_object tgt dev) as [t|] eqn:Es; [|discriminate].
+          destruct t as [c' tn toff trep tch| | | |]; try discriminate.
+          apply search_object_in in Es. destruct Es as [Es _].
+          cbn [apply_override] in Hgm. destruct f1 as [|f1]; [discriminate|]. cbn [get_method] in Hgm.
+          destruct (lower_list (get_method fx f1 dev) tch) as [[ms' bls']|k]; [|discriminate].
+          injection Hgm as <- <-.
+          eapply Hblock; [exists c', toff, trep; exact Es| | | |exact Ha|exact Hb]; reflexivity.
+        + destruct (search_object tgt dev) as [t|] eqn:Es; [|discriminate].
+          destruct t as [| r | | |]; try discriminate.
+          cbn [apply_override] in Hgm. destruct f1 as [|f1]; [discriminate|]. cbn [get_method] in Hgm.
+          injection Hgm as <- <-. injection Hb as <-.
+          eapply leaf_corr; [exact Ha|reflexivity|reflexivity|reflexivity|reflexivity|reflexivity| |exact Hoff|exact Hst].
+          cbn. destruct own; [|left; rewrite andb_false_r; reflexivity].
+          destruct fx; [left; reflexivity|right]. rewrite orb_true_r. repeat split; auto.
+          apply in_or_app. right. apply in_or_app. right. left. reflexivity.
+        + destruct (search_object tgt dev) as [t|] eqn:Es; [|discriminate].
+          destruct t as [| | cm0 | |]; try discriminate.
+          cbn [apply_override] in Hgm. destruct f1 as [|f1]; [discriminate|]. cbn [get_method] in Hgm.
+          injection Hgm as <- <-. injection Hb as <-.
+          eapply leaf_corr; [exact Ha|reflexivity|reflexivity|reflexivity|reflexivity|reflexivity| |exact Hoff|exact Hst].
+          cbn. destruct own; [|left; rewrite andb_false_r; reflexivity].
+          destruct fx; [left; reflexivity|right]. rewrite orb_true_r. repeat split; auto.
+          apply in_or_app. right. apply in_or_app. right. left. reflexivity. }
+    (* the list *)
+    clear Hblock. revert ms bls cl il Hlow Hcl Hil.
+    induction objs as [|o t IHt]; intros ms bls cl il Hlow Hcl Hil.
+    - cbn in Hlow. injection Hlow as <- <-. cbn in Hcl, Hil. injection Hcl as <-. injection Hil as <-. constructor.
+    - cbn [lower_list] in Hlow.
+      destruct (get_method fx f1 dev o) as [[m blo]|k] eqn:Eg; [|discriminate].
+      destruct (lower_list (get_method fx f1 dev) t) as [[ms' bls']|k] eqn:El; [|discriminate].
+      injection Hlow as <- <-. cbn [map] in Hcl, Hil.
+      apply ocat_cons_ok in Hcl. destruct Hcl as (a1 & a2 & Ha1 & Ha2 & ->).
+      apply ocat_cons_ok in Hil. destruct Hil as (b1 & b2 & Hb1 & Hb2 & ->).
+      apply Forall2_app.
+      + eapply Hone; eauto. apply Htree. left; reflexivity.
+      + eapply IHt; eauto. intros x Hx. apply Htree. right; assumption.
+  Qed.
+
+  (* every block generated while lowering tree objects is a gen_block *)
+  Definition tree_like (o : object) : Prop :=
+    match o with
+    | OBlock _ n _ _ ch => exists c' off' rep', in_tree (OBlock c' n off' rep' ch)
+    | _ => True
+    end.
+
+  Lemma generated_blocks : forall f o m bls,
+    tree_like o -> get_method fx f dev o = Ok (m, bls) -> Forall gen_block bls.
+  Proof.
+    induction f as [|f IH]; intros o m bls Htl H; [discriminate|].
+    assert (Hlist : forall objs ms bls0, (forall x, In x objs -> in_tree x) ->
+              lower_list (get_method fx f dev) objs = Ok (ms, bls0) -> Forall gen_block bls0).
+    { induction objs as [|x t IHt]; intros ms bls0 Hin Hl; cbn in Hl.
+      - injection Hl as <- <-. constructor.
+      - destruct (get_method fx f dev x) as [[m0 bl0]|k] eqn:E; [|discriminate].
+        destruct (lower_list (get_method fx f dev) t) as [[ms' bls']|k] eqn:E2; [|discriminate].
+        injection Hl as <- <-. apply Forall_app. split.
+        + eapply IH; [|exact E]. pose proof (Hin x (or_introl eq_refl)) as Hx.
+          destruct x; cbn; auto. eauto.
+        + eapply IHt; [|reflexivity]. intros y Hy. apply Hin. right; assumption. }
+    destruct o as [c n off rep ch|rg|cm|bf|c n ov]; cbn [get_method] in H;
+      try (injection H as <- <-; constructor).
+    - destruct (lower_list (get_method fx f dev) ch) as [[ms bls']|k] eqn:E; [|discriminate].
+      injection H as <- <-. destruct Htl as (c' & off' & rep' & Hin). constructor.
+      + exists c', off', rep', ch, f, bls'. split; [exact Hin|exact E].
+      + eapply Hlist; [|exact E]. intros x Hx. eapply flat_children; eauto.
+    - destruct (search_object (override_target ov) dev) as [tgt|] eqn:Es; [|discriminate].
+      apply search_object_in in Es. destruct Es as [Es _].
+      destruct (apply_override fx c ov tgt) as [o'|] eqn:Ea; [|discriminate].
+      destruct (get_method fx f dev o') as [[m' bls']|k] eqn:Eg; [|discriminate].
+      injection H as <- <-. eapply IH; [|exact Eg].
+      destruct ov, tgt; cbn in Ea; try discriminate; injection Ea as <-; cbn; auto. eauto.
+  Qed.
+End Corr.
+
+Definition corr_flags (fx : bool) (c : claimed) (i : instance) : Prop := corr fx c i.
+
+(* no block of the tree carries the device's (= root block's) name *)
+Definition root_name_fresh (dev_name : string) (objs : list object) : Prop :=
+  forall c off rep ch, ~ In (OBlock c dev_name off rep ch) (flat_map flat objs).
+
+Theorem claimed_eq_instances fx dev_name objs f1 BL f2 ms cl f3 il :
+  unique_blocks objs -> root_name_fresh dev_name objs ->
+  lower fx f1 dev_name objs = Ok BL ->
+  root_methods BL = Some ms -> claimed_methods f2 BL ms 0 [] = Ok cl ->
+  instances f3 objs = Ok il ->
+  Forall2 (corr fx) cl il.
+Proof.
+  intros Hu Hfresh Hlow Hroot Hcl Hil. unfold lower in Hlow.
+  destruct (lower_list (get_method fx f1 objs) objs) as [[ms0 bls]|k] eqn:El; [|discriminate].
+  injection Hlow as <-. cbn in Hroot. injection Hroot as <-.
+  eapply (corr_main fx objs _ Hu); [| |exact El|exact Hcl|exact Hil|reflexivity|reflexivity].
+  - (* lookups of tree block names find generated blocks, never the root *)
+    intros name b Hf (c & off & rep & ch & Hin). unfold find_block in Hf. cbn [find b_name] in Hf.
+    destruct (String.eqb dev_name name) eqn:E.
+    + apply String.eqb_eq in E. subst name. exfalso. eapply Hfresh; eauto.
+    + apply List.find_some in Hf. destruct Hf as [Hb _].
+      assert (HF : Forall (gen_block fx objs) bls).
+      { clear -El.
+        assert (Hgen : forall l ms1 bls1, (forall x, In x l -> In x (flat_map flat objs)) ->
+                  lower_list (get_method fx f1 objs) l = Ok (ms1, bls1) -> Forall (gen_block fx objs) bls1).
+        { induction l as [|x t IHt]; intros ms1 bls1 Hin Hl; cbn in Hl.
+          - injection Hl as <- <-. constructor.
+          - destruct (get_method fx f1 objs x) as [[m0 bl0]|k] eqn:E; [|discriminate].
+            destruct (lower_list (get_method fx f1 objs) t) as [[ms' bls']|k] eqn:E2; [|discriminate].
+            injection Hl as <- <-. apply Forall_app. split.
+            + eapply generated_blocks; [|exact E]. pose proof (Hin x (or_introl eq_refl)) as Hx.
+              destruct x; cbn; auto. eauto.
+            + eapply IHt; [|reflexivity]. intros y Hy. apply Hin. right; assumption. }
+        eapply Hgen; [|exact El]. intros x Hx. apply in_objs_flat. exact Hx. }
+      rewrite Forall_forall in HF. apply HF. exact Hb.
+  - intros x Hx. apply in_objs_flat. exact Hx.
+Qed.
+
+(* ================================================================================================ *)
+(** * 7. C12 corollaries: reject <-> collision, error names both *)
+
+Lemma Forall2_nth_l {A B} (R : A -> B -> Prop) l l' (H : Forall2 R l l') : forall n a,
+  nth_error l n = Some a -> exists b, nth_error l' n = Some b /\ R a b.
+Proof.
+  induction H as [|x y l l' Hxy HF IH]; intros n a Hn; destruct n; cbn in *; try discriminate.
+  - injection Hn as <-. eauto.
+  - eauto.
+Qed.
+
+Lemma Forall2_nth_r {A B} (R : A -> B -> Prop) l l' (H : Forall2 R l l') : forall n b,
+  nth_error l' n = Some b -> exists a, nth_error l n = Some a /\ R a b.
+Proof.
+  induction H as [|x y l l' Hxy HF IH]; intros n b Hn; destruct n; cbn in *; try discriminate.
+  - injection Hn as <-. eauto.
+  - eauto.
+Qed.
+
+Definition same_flag (c : claimed) (i : instance) : Prop :=
+  c_kind c = i_kind i /\ claimed_display c = instance_display i /\ c_address c = i_addr i /\ i_allow i = c_allow c.
+
+Lemma conflict_collide c1 c2 i1 i2 : same_flag c1 i1 -> same_flag c2 i2 -> conflict c1 c2 = collide i1 i2.
+Proof.
+  intros (K1 & _ & A1 & F1) (K2 & _ & A2 & F2). unfold conflict, collide.
+  rewrite K1, K2, A1, A2, F1, F2.
+  destruct (akind_eqb (i_kind i1) (i_kind i2)), (i_addr i1 =? i_addr i2); reflexivity.
+Qed.
+
+Lemma reject_iff_collision_same cl il :
+  Forall2 same_flag cl il -> (pairwise_check cl <> None <-> collision il).
+Proof.
+  intros HF. rewrite pairwise_complete. unfold conflict_pair, collision. split.
+  - intros (i & j & a & b & Hlt & Hi & Hj & Hc).
+    destruct (Forall2_nth_l _ _ _ HF _ _ Hi) as (ia & Hia & Ra).
+    destruct (Forall2_nth_l _ _ _ HF _ _ Hj) as (ib & Hib & Rb).
+    exists i, j, ia, ib. repeat split; auto. rewrite <- (conflict_collide _ _ _ _ Ra Rb). exact Hc.
+  - intros (i & j & ia & ib & Hlt & Hi & Hj & Hc).
+    destruct (Forall2_nth_r _ _ _ HF _ _ Hi) as (a & Ha & Ra).
+    destruct (Forall2_nth_r _ _ _ HF _ _ Hj) as (b & Hb & Rb).
+    exists i, j, a, b. repeat split; auto. rewrite (conflict_collide _ _ _ _ Ra Rb). exact Hc.
+Qed.
+
+(* no ref of the tree sets the flag itself ==> no instance carries TOwnFlag *)
+Lemma own_free dev : (forall o, In o (flat_map flat dev) -> obj_ref_no_own_flag o = true) ->
+  forall fuel objs bl path tags l i,
+  (forall o, In o objs -> In o (flat_map flat dev)) -> ~ In TOwnFlag tags ->
+  instances_objs fuel dev objs bl path tags = Ok l -> In i l -> ~ In TOwnFlag (i_tags i).
+Proof.
+  intros Hno. induction fuel as [|f IH]; intros objs bl path tags l i Hs Hct H Hi; [discriminate|].
+  rewrite instances_objs_S in H. apply ocat_map_ok in H. destruct H as (rs & HF & ->).
+  apply in_concat in Hi. destruct Hi as (r & Hr & Hi).
+  destruct (Forall2_in_r _ _ _ HF _ Hr) as (o & Ho & Hcall).
+  pose proof (Hno o (Hs o Ho)) as Hso.
+  assert (Hnil : ~ In TOwnFlag (tags ++ [])) by (rewrite app_nil_r; assumption).
+  assert (Hblock : forall name off rep ch tg, (forall x, In x ch -> In x (flat_map flat dev)) ->
+            ~ In TOwnFlag tg ->
+            block_inst (instances_objs f dev) bl path name off rep ch tg = Ok r -> ~ In TOwnFlag (i_tags i)).
+  { intros name off rep ch tg Hch Htg Hb.
+    destruct (block_inst_in _ _ _ _ _ _ _ _ _ _ Hb Hi) as (k & r1 & Hk & Hrec & Hi1).
+    eapply IH; [exact Hch| |exact Hrec|exact Hi1].
+    intros Hin. apply in_app_or in Hin. destruct Hin as [Hin|Hin]; [auto|].
+    destruct (rep_is rep); cbn in Hin; [destruct Hin as [Hin|[]]; discriminate|destruct Hin]. }
+  destruct o as [c n off rep ch|rg|cm|bf|c n ov]; cbn [inst_one] in Hcall.
+  - eapply Hblock; [|exact Hct|exact Hcall]. intros x Hx. eapply flat_children; [apply Hs; exact Ho|exact Hx].
+  - injection Hcall as <-. apply leaf_instances_in in Hi. destruct Hi as (k & _ & ->). exact Hnil.
+  - injection Hcall as <-. apply leaf_instances_in in Hi. destruct Hi as (k & _ & ->). exact Hnil.
+  - injection Hcall as <-. apply leaf_instances_in in Hi. destruct Hi as (k & _ & ->). exact Hnil.
+  - destruct ov as [tgt off rep|tgt acc0 addr allow reset rep|tgt addr allow rep];
+      (destruct (search_object _ dev) as [t|] eqn:Es; [|discriminate]); destruct t; try discriminate.
+    + apply search_object_in in Es. destruct Es as [Es _].
+      eapply Hblock; [| |exact Hcall]; [intros x Hx; eapply flat_children; eauto|].
+      intros Hin. apply in_app_or in Hin. destruct Hin as [Hin|[Hin|[]]]; [auto|discriminate].
+    + injection Hcall as <-. apply leaf_instances_in in Hi. destruct Hi as (k & _ & ->). cbn [i_tags lf_tags].
+      cbn in Hso. destruct allow; [discriminate|]. intros Hin. apply in_app_or in Hin. destruct Hin as [Hin|Hin]; [auto|].
+      apply in_app_or in Hin. destruct Hin as [Hin|Hin]; [destruct (is_none addr); cbn in Hin; [destruct Hin as [Hin|[]]; discriminate|destruct Hin]|].
+      apply in_app_or in Hin. destruct Hin as [Hin|Hin]; [|destruct Hin].
+      destruct (is_none rep && rep_is (rg_repeat r0)); cbn in Hin; [destruct Hin as [Hin|[]]; discriminate|destruct Hin].
+    + injection Hcall as <-. apply leaf_instances_in in Hi. destruct Hi as (k & _ & ->). cbn [i_tags lf_tags].
+      cbn in Hso. destruct allow; [discriminate|]. intros Hin. apply in_app_or in Hin. destruct Hin as [Hin|Hin]; [auto|].
+      apply in_app_or in Hin. destruct Hin as [Hin|Hin]; [destruct (is_none addr); cbn in Hin; [destruct Hin as [Hin|[]]; discriminate|destruct Hin]|].
+      apply in_app_or in Hin. destruct Hin as [Hin|Hin]; [|destruct Hin].
+      destruct (is_none rep && rep_is (cm_repeat c0)); cbn in Hin; [destruct Hin as [Hin|[]]; discriminate|destruct Hin].
+Qed.
+
+Lemma no_own_flag_instances objs fuel l i :
+  no_own_flag objs = true -> instances fuel objs = Ok l -> In i l -> has_tag TOwnFlag i = false.
+Proof.
+  intros Hno H Hi. destruct (has_tag TOwnFlag i) eqn:E; [|reflexivity]. exfalso.
+  unfold has_tag in E. apply existsb_exists in E. destruct E as (t & Ht & Heq). apply tag_eqb_eq in Heq. subst t.
+  assert (Hno' : forall o, In o (flat_map flat objs) -> obj_ref_no_own_flag o = true).
+  { intros o Ho. unfold no_own_flag in Hno. rewrite forallb_forall, preorder_objects_flat in Hno. exact (Hno o Ho). }
+  exact (own_free objs Hno' fuel objs [] [] [] l i (fun o Ho => in_objs_flat _ _ Ho) (fun Hf => Hf) H Hi Ht).
+Qed.
+
+Lemma corr_same_flag fx cl il :
+  Forall2 (corr fx) cl il -> (fx = true \/ forall i, In i il -> has_tag TOwnFlag i = false) ->
+  Forall2 same_flag cl il.
+Proof.
+  intros HF Hc. induction HF as [|c i cl il Hci HF IH]; constructor.
+  - destruct Hci as (K & D & A & [Fl|(Hfx & Ht & _)]); [repeat split; auto|].
+    destruct Hc as [Hc|Hc]; [congruence|]. rewrite Hc in Ht; [discriminate|left; reflexivity].
+  - apply IH. destruct Hc as [Hc|Hc]; [left; assumption|right]. intros j Hj. apply Hc. right; assumption.
+Qed.
+
+(* the pass, unfolded *)
+Lemma overlap_pass_ok fuel BL r :
+  overlap_pass fuel BL = Ok r ->
+  exists ms cl, root_methods BL = Some ms /\ claimed_methods fuel BL ms 0 [] = Ok cl /\ r = pairwise_check cl.
+Proof.
+  unfold overlap_pass. destruct (root_methods BL) as [ms|]; [|discriminate].
+  destruct (claimed_methods fuel BL ms 0 []) as [cl|k] eqn:E; [|discriminate].
+  intros H; injection H as <-. eauto.
+Qed.
+
+(* ================================================================================================ *)
+(** * 8. C13: the emitted arithmetic does not overflow on the way (untagged instances) *)
+
+(* every value the emitted code computes from exact operands: base + ADDR and the step's result *)
+Fixpoint checkpoints (base : Z) (path : list step) : list Z :=
+  match path with
+  | [] => []
+  | s :: t => (base + s_addr s) :: (base + step_sem s) :: checkpoints (base + step_sem s) t
+  end.
+
+Lemma Forall_within_mono a b l : Forall (within a) l -> le_acc a b -> Forall (within b) l.
+Proof. intros H Hle. eapply Forall_impl; [|exact H]. intros z Hz. eapply within_mono; eauto. Qed.
+
+Lemma inst_checkpoints dev filter (Hfb : filter_blocks filter) : forall fuel objs bl path tags l i,
+  instances_objs fuel dev objs bl path tags = Ok l -> In i l -> clean (i_tags i) ->
+  filter_covers filter (i_kind i) ->
+  exists rest, i_path i = path ++ rest /\
+    forall acc, Forall (within (mm_struct_list filter (addr_sem path) objs acc)) (checkpoints (addr_sem path) rest).
+Proof.
+  induction fuel as [|f IH]; intros objs bl path tags l i H Hi Hcl Hcov; [discriminate|].
+  rewrite instances_objs_S in H.
+  assert (Hone : forall o a, inst_one (instances_objs f dev) dev bl path tags o = Ok a -> In i a ->
+                   exists rest, i_path i = path ++ rest /\
+                     forall acc, Forall (within (mm_struct filter (addr_sem path) o acc)) (checkpoints (addr_sem path) rest)).
+  { intros o a Ho Hia.
+    assert (Hleaf : forall lf, In i (leaf_instances bl path tags lf) ->
+              filter o = true -> object_address o = Some (lf_addr lf) ->
+              (rep_count (object_repeat o) = rep_count (lf_rep lf) /\ rep_stride (object_repeat o) = rep_stride (lf_rep lf)) ->
+              exists rest, i_path i = path ++ rest /\
+                forall acc, Forall (within (visit filter (addr_sem path) o acc)) (checkpoints (addr_sem path) rest)).
+    { intros lf Hin Hf Ha (Hc & Hs). apply leaf_instances_in in Hin. destruct Hin as (k & Hk & ->).
+      eexists. split; [reflexivity|]. intros acc. cbn [checkpoints]. unfold step_sem. cbn [s_addr s_idx s_rep].
+      constructor; [apply visit_within0; auto|]. constructor; [|constructor].
+      rewrite <- Hs, Z.add_assoc. apply visit_within; auto. rewrite Hc. assumption. }
+    destruct o as [c n off rep ch|rg|cm|bf|c n ov]; cbn [inst_one] in Ho.
+    - destruct (block_inst_in _ _ _ _ _ _ _ _ _ _ Ho Hia) as (k & r1 & Hk & Hrec & Hi1).
+      destruct (tags_prefix _ _ _ _ _ _ _ _ Hrec Hi1) as (rest0 & Ht).
+      assert (Hrep : rep = None).
+      { pose proof Hcl as Hc. rewrite Ht in Hc. apply clean_app in Hc. destruct Hc as [Hc _].
+        apply clean_app in Hc. destruct Hc as [_ Hc]. apply clean_opt_tag in Hc; [|discriminate].
+        destruct rep; [discriminate|reflexivity]. }
+      subst rep. assert (k = 0) by (unfold rep_count in Hk; lia). subst k.
+      destruct (IH _ _ _ _ _ _ Hrec Hi1 Hcl Hcov) as (rest & Hp & Hb).
+      exists ({| s_addr := off; s_rep := None; s_idx := 0 |} :: rest). split; [rewrite Hp, <- app_assoc; reflexivity|].
+      intros acc. rewrite mm_struct_block. cbn [checkpoints]. unfold step_sem. cbn [s_addr s_idx s_rep].
+      unfold rep_stride. replace (off + 0 * 0) with off by lia.
+      rewrite addr_sem_app in Hb. unfold step_sem in Hb. cbn [s_addr s_idx s_rep] in Hb. unfold rep_stride in Hb.
+      replace (addr_sem path + (off + 0 * 0)) with (addr_sem path + off) in Hb by lia.
+      set (acc1 := visit filter (addr_sem path) (OBlock c n off None ch) acc).
+      assert (Hw : within acc1 (addr_sem path + off)) by (apply visit_within0; [apply Hfb|reflexivity]).
+      constructor; [eapply within_mono; [exact Hw|apply mm_struct_list_mono]|].
+      constructor; [eapply within_mono; [exact Hw|apply mm_struct_list_mono]|]. apply Hb.
+    - injection Ho as <-. eapply Hleaf; [exact Hia| | reflexivity | split; reflexivity].
+      apply leaf_instances_in in Hia. destruct Hia as (k & _ & ->). apply Hcov. reflexivity.
+    - injection Ho as <-. eapply Hleaf; [exact Hia| | reflexivity | split; reflexivity].
+      apply leaf_instances_in in Hia. destruct Hia as (k & _ & ->). apply Hcov. reflexivity.
+    - injection Ho as <-. eapply Hleaf; [exact Hia| | reflexivity | split; reflexivity].
+      apply leaf_instances_in in Hia. destruct Hia as (k & _ & ->). apply Hcov. reflexivity.
+    - destruct ov as [tgt off rep|tgt acc0 addr allow reset rep|tgt addr allow rep];
+        (destruct (search_object _ dev) as [t|]; [|discriminate]); destruct t; try discriminate.
+      + destruct (block_inst_in _ _ _ _ _ _ _ _ _ _ Ho Hia) as (k & r1 & Hk & Hrec & Hi1).
+        destruct (tags_prefix _ _ _ _ _ _ _ _ Hrec Hi1) as (rest & Ht).
+        exfalso. rewrite Ht in Hcl. apply clean_app in Hcl. destruct Hcl as [Hc _].
+        apply clean_app in Hc. destruct Hc as [Hc _]. apply clean_app in Hc. destruct Hc as [_ Hc].
+        specialize (Hc TBlockRef (or_introl eq_refl)). discriminate.
+      + injection Ho as <-. pose proof Hia as Hia'. apply leaf_instances_in in Hia'. destruct Hia' as (k & _ & Hi').
+        assert (Hc : clean (opt_tag (is_none addr) TRefNoAddr
+                              ++ opt_tag (is_none rep && rep_is (rg_repeat r)) TRefKeepsRepeat
+                              ++ opt_tag allow TOwnFlag)).
+        { rewrite Hi' in Hcl. cbn [i_tags lf_tags] in Hcl. apply clean_app in Hcl. apply Hcl. }
+        apply clean_app in Hc. destruct Hc as [Hc1 Hc]. apply clean_app in Hc. destruct Hc as [Hc2 _].
+        apply clean_opt_tag in Hc1; [|discriminate]. apply clean_opt_tag in Hc2; [|discriminate].
+        destruct addr as [a0|]; [|discriminate].
+        eapply Hleaf; [exact Hia| | reflexivity | ].
+        * apply Hcov. rewrite Hi'. reflexivity.
+        * cbn [lf_rep object_repeat]. destruct rep as [rp|]; [split; reflexivity|].
+          cbn in Hc2. destruct (rg_repeat r); [discriminate|]. split; reflexivity.
+      + injection Ho as <-. pose proof Hia as Hia'. apply leaf_instances_in in Hia'. destruct Hia' as (k & _ & Hi').
+        assert (Hc : clean (opt_tag (is_none addr) TRefNoAddr
+                              ++ opt_tag (is_none rep && rep_is (cm_repeat c0)) TRefKeepsRepeat
+                              ++ opt_tag allow TOwnFlag)).
+        { rewrite Hi' in Hcl. cbn [i_tags lf_tags] in Hcl. apply clean_app in Hcl. apply Hcl. }
+        apply clean_app in Hc. destruct Hc as [Hc1 Hc]. apply clean_app in Hc. destruct Hc as [Hc2 _].
+        apply clean_opt_tag in Hc1; [|discriminate]. apply clean_opt_tag in Hc2; [|discriminate].
+        destruct addr as [a0|]; [|discriminate].
+        eapply Hleaf; [exact Hia| | reflexivity | ].
+        * apply Hcov. rewrite Hi'. reflexivity.
+        * cbn [lf_rep object_repeat]. destruct rep as [rp|]; [split; reflexivity|].
+          cbn in Hc2. destruct (cm_repeat c0); [discriminate|]. split; reflexivity. }
+  revert l H Hi. induction objs as [|o t IHt]; intros l H Hi.
+  - cbn in H. injection H as <-. destruct Hi.
+  - cbn [map] in H. apply ocat_cons_ok in H. destruct H as (a & b & Ha & Hb & ->).
+    apply in_app_or in Hi. destruct Hi as [Hi|Hi].
+    + destruct (Hone o a Ha Hi) as (rest & Hp & Hw). exists rest. split; [exact Hp|].
+      intros acc. unfold mm_struct_list. cbn [fold_left].
+      eapply Forall_within_mono; [apply Hw|]. apply (mm_struct_list_mono filter (addr_sem path) t).
+    + destruct (IHt b Hb Hi) as (rest & Hp & Hw). exists rest. split; [exact Hp|].
+      intros acc. unfold mm_struct_list. cbn [fold_left]. apply Hw.
+Qed.
+
+(* --- machine evaluation of a path whose exact values are all representable --- *)
+
+Lemma in_range_wrap t z : 0 < bits t -> in_range t z = true -> wrap t z = z.
+Proof.
+  intros Hb H. unfold in_range, ity_min, ity_max, wrap in *.
+  assert (Hp : 2 ^ bits t = 2 * 2 ^ (bits t - 1)).
+  { replace (bits t) with (1 + (bits t - 1)) at 1 by lia. rewrite Z.pow_add_r by lia. reflexivity. }
+  assert (Hpos : 0 < 2 ^ (bits t - 1)) by (apply Z.pow_pos_nonneg; lia).
+  destruct (signed t); cbn [andb].
+  - apply andb_true_iff in H. destruct H as [H1 H2]. apply Z.leb_le in H1, H2.
+    destruct (Z_lt_le_dec z 0).
+    + assert (Hm : z mod 2 ^ bits t = z + 2 ^ bits t).
+      { symmetry. apply Z.mod_unique with (q := -1); lia. }
+      rewrite Hm. destruct (2 ^ (bits t - 1) <=? z + 2 ^ bits t) eqn:E; [lia|]. apply Z.leb_gt in E. lia.
+    + rewrite Z.mod_small by lia. destruct (2 ^ (bits t - 1) <=? z) eqn:E; [apply Z.leb_le in E; lia|reflexivity].
+  - apply andb_true_iff in H. destruct H as [H1 H2]. apply Z.leb_le in H1, H2. apply Z.mod_small. lia.
+Qed.
+
+(* what has to be representable in the internal type for one repeated step *)
+Definition step_ok (it : ity) (s : step) : Prop :=
+  match s_rep s with
+  | None => True
+  | Some r => 0 <= s_idx s < r_count r /\
+              in_range it (s_idx s * Z.abs (r_stride r)) = true /\
+              (r_stride r = 0 \/ in_range it (s_idx s) = true)
+  end.
+
+Lemma arith_ok it z : in_range it z = true -> arith true it z = Ok z.
+Proof. unfold arith. intros ->. reflexivity. Qed.
+
+Lemma step_eval_exact it base s :
+  0 < bits it -> step_ok it s ->
+  in_range it (base + s_addr s) = true -> in_range it (base + step_sem s) = true ->
+  step_eval true it base s = Ok (base + step_sem s).
+Proof.
+  intros Hb Hok H1 H2. unfold step_eval, step_sem, step_ok in *. destruct (s_rep s) as [r|].
+  - destruct Hok as (Hidx & Hp & Hi). unfold rep_stride in *.
+    replace ((0 <=? s_idx s) && (s_idx s <? r_count r)) with true by lia. cbn [negb].
+    rewrite (arith_ok _ _ H1). cbn [bind].
+    assert (Hw : wrap it (s_idx s) * Z.abs (r_stride r) = s_idx s * Z.abs (r_stride r)).
+    { destruct Hi as [H0|Hi]; [rewrite H0; cbn; lia|]. rewrite (in_range_wrap _ _ Hb Hi). reflexivity. }
+    rewrite Hw, (arith_ok _ _ Hp). cbn [bind].
+    destruct (r_stride r <? 0) eqn:E.
+    + replace (base + s_addr s - s_idx s * Z.abs (r_stride r)) with (base + (s_addr s + s_idx s * r_stride r)) by lia.
+      apply arith_ok. exact H2.
+    + replace (base + s_addr s + s_idx s * Z.abs (r_stride r)) with (base + (s_addr s + s_idx s * r_stride r)) by lia.
+      apply arith_ok. exact H2.
+  - unfold rep_stride in *. replace (base + (s_addr s + s_idx s * 0)) with (base + s_addr s) by lia.
+    apply arith_ok. exact H1.
+Qed.
+
+Lemma steps_eval_exact it : forall path base,
+  0 < bits it -> Forall (step_ok it) path ->
+  Forall (fun z => in_range it z = true) (checkpoints base path) ->
+  steps_eval true it base path = Ok (base + addr_sem path).
+Proof.
+  induction path as [|s t IH]; intros base Hb Hok Hcp.
+  - cbn [steps_eval]. f_equal. unfold addr_sem, zsum. cbn [map fold_right]. lia.
+  - cbn [checkpoints] in Hcp. inversion Hcp as [|? ? H1 Hcp']; subst. inversion Hcp' as [|? ? H2 Hcp'']; subst.
+    inversion Hok; subst. cbn [steps_eval]. rewrite (step_eval_exact it base s Hb); auto. cbn [bind].
+    rewrite IH; auto. f_equal. unfold addr_sem, zsum. cbn [map fold_right]. lia.
+Qed.
+
+(* --- find_best_internal_address covers [min, max] --- *)
+
+Lemma next_power_of_two_ge z : z <= next_power_of_two z.
+Proof.
+  unfold next_power_of_two. destruct (z <=? 1) eqn:E; [lia|]. apply Z.leb_gt in E.
+  apply Z.log2_up_spec in E. lia.
+Qed.
+
+Lemma log2_next_power_of_two m : 1 <= m -> m <= 2 ^ Z.log2 (next_power_of_two m).
+Proof.
+  intros Hm. unfold next_power_of_two. destruct (m <=? 1) eqn:E.
+  - cbn. lia.
+  - apply Z.leb_gt in E. rewrite Z.log2_pow2 by (apply Z.log2_up_nonneg).
+    apply Z.log2_up_spec in E. lia.
+Qed.
+
+Lemma best_internal_covers mn mx it :
+  best_internal mn mx = Ok it -> mn <= 0 <= mx ->
+  8 <= bits it /\ (signed it = (mn <? 0)) /\ forall z, mn <= z <= mx -> in_range it z = true.
+Proof.
+  unfold best_internal. intros H Hmm.
+  set (m := Z.max (Z.abs mn) (Z.abs mx) + 1) in *.
+  destruct (2 ^ 63 <? m); [discriminate|]. injection H as <-. cbn [bits signed].
+  set (k := Z.log2 (next_power_of_two m)).
+  assert (Hk0 : 0 <= k) by apply Z.log2_nonneg.
+  assert (Hmk : m <= 2 ^ k) by (apply log2_next_power_of_two; lia).
+  set (sg := if mn <? 0 then 1 else 0).
+  set (b := Z.max (next_power_of_two (k + sg)) 8).
+  assert (Hb : k + sg <= b) by (pose proof (next_power_of_two_ge (k + sg)); lia).
+  split; [lia|]. split; [reflexivity|].
+  intros z Hz. unfold in_range, ity_min, ity_max. cbn [signed bits].
+  destruct (mn <? 0) eqn:Es.
+  - subst sg. assert (Hpow : 2 ^ k <= 2 ^ (b - 1)) by (apply Z.pow_le_mono_r; lia). lia.
+  - subst sg. apply Z.ltb_ge in Es. assert (Hpow : 2 ^ k <= 2 ^ b) by (apply Z.pow_le_mono_r; lia). lia.
+Qed.
+
+Lemma walk_contains_zero filter objs :
+  filter_blocks filter ->
+  fst (find_min_max_addresses filter objs) <= 0 <= snd (find_min_max_addresses filter objs).
+Proof.
+  intros Hfb. rewrite walk_struct by assumption.
+  pose proof (mm_struct_list_mono filter 0 objs (0, 0)) as H. unfold le_acc in H. cbn in H. lia.
+Qed.
+
+Definition last_step_product_ok (it : ity) (path : list step) : Prop :=
+  match last path {| s_addr := 0; s_rep := None; s_idx := 0 |} with
+  | {| s_rep := Some r |} => (r_count r - 1) * Z.abs (r_stride r) <= ity_max it
+  | _ => True
+  end.
+
+Lemma checkpoints_app p : forall base q,
+  checkpoints base (p ++ q) = checkpoints base p ++ checkpoints (base + addr_sem p) q.
+Proof.
+  induction p as [|s t IH]; intros base q.
+  - cbn [app checkpoints]. f_equal. unfold addr_sem, zsum. cbn. lia.
+  - cbn [app checkpoints]. rewrite IH. do 2 f_equal. f_equal. f_equal. unfold addr_sem, zsum. cbn [map fold_right]. lia.
+Qed.
+
+(* the path of an untagged instance: plain (non-repeated) block steps, then the object's own step *)
+Lemma inst_path_shape dev : forall fuel objs bl path tags l i,
+  instances_objs fuel dev objs bl path tags = Ok l -> In i l -> clean (i_tags i) ->
+  exists mid s, i_path i = path ++ mid ++ [s] /\ Forall (fun b => s_rep b = None) mid /\
+                0 <= s_idx s < rep_count (s_rep s).
+Proof.
+  induction fuel as [|f IH]; intros objs bl path tags l i H Hi Hcl; [discriminate|].
+  rewrite instances_objs_S in H. apply ocat_map_ok in H. destruct H as (rs & HF & ->).
+  apply in_concat in Hi. destruct Hi as (r & Hr & Hi).
+  destruct (Forall2_in_r _ _ _ HF _ Hr) as (o & Ho & Hcall).
+  assert (Hleaf : forall lf, In i (leaf_instances bl path tags lf) ->
+            exists mid s, i_path i = path ++ mid ++ [s] /\ Forall (fun b => s_rep b = None) mid /\
+                          0 <= s_idx s < rep_count (s_rep s)).
+  { intros lf Hin. apply leaf_instances_in in Hin. destruct Hin as (k & Hk & ->).
+    exists [], {| s_addr := lf_addr lf; s_rep := lf_rep lf; s_idx := k |}. cbn. auto. }
+  assert (Hblock : forall name off rep ch tg, block_inst (instances_objs f dev) bl path name off rep ch tg = Ok r ->
+            exists mid s, i_path i = path ++ mid ++ [s] /\ Forall (fun b => s_rep b = None) mid /\
+                          0 <= s_idx s < rep_count (s_rep s)).
+  { intros name off rep ch tg Hb.
+    destruct (block_inst_in _ _ _ _ _ _ _ _ _ _ Hb Hi) as (k & r1 & Hk & Hrec & Hi1).
+    destruct (tags_prefix _ _ _ _ _ _ _ _ Hrec Hi1) as (rest0 & Ht).
+    assert (Hrep : rep = None).
+    { pose proof Hcl as Hc. rewrite Ht in Hc. apply clean_app in Hc. destruct Hc as [Hc _].
+      apply clean_app in Hc. destruct Hc as [_ Hc]. apply clean_opt_tag in Hc; [|discriminate].
+      destruct rep; [discriminate|reflexivity]. }
+    subst rep. destruct (IH _ _ _ _ _ _ Hrec Hi1 Hcl) as (mid & s & Hp & Hmid & Hs).
+    exists ({| s_addr := off; s_rep := None; s_idx := k |} :: mid), s. split; [|split; [constructor; [reflexivity|assumption]|assumption]].
+    rewrite Hp, <- app_assoc. reflexivity. }
+  destruct o as [c n off rep ch|rg|cm|bf|c n ov]; cbn [inst_one] in Hcall.
+  - eapply Hblock; eauto.
+  - injection Hcall as <-. eapply Hleaf; eauto.
+  - injection Hcall as <-. eapply Hleaf; eauto.
+  - injection Hcall as <-. eapply Hleaf; eauto.
+  - destruct ov as [tgt off rep|tgt acc0 addr allow reset rep|tgt addr allow rep];
+      (destruct (search_object _ dev) as [t|]; [|discriminate]); destruct t; try discriminate.
+    + eapply Hblock; eauto.
+    + injection Hcall as <-. eapply Hleaf; eauto.
+    + injection Hcall as <-. eapply Hleaf; eauto.
+Qed.
+
+Lemma ity_min_le_0 it : ity_min it <= 0.
+Proof.
+  unfold ity_min. destruct (signed it); [|lia].
+  destruct (Z_lt_le_dec (bits it - 1) 0) as [Hn|Hn].
+  - rewrite Z.pow_neg_r by lia. lia.
+  - pose proof (Z.pow_pos_nonneg 2 (bits it - 1)). lia.
+Qed.
+
+(* For every untagged instance of ANY tree: with the internal type chosen by find_best_internal_address
+   and overflow checks on, the emitted arithmetic computes exactly addr_sem — provided the internal type is
+   unsigned, or the object's own (count-1)*|stride| fits the internal type (the D3b side condition). *)
+Theorem untagged_no_overflow d fuel l i it :
+  instances fuel (d_objects d) = Ok l -> In i l -> untagged i = true ->
+  internal_type d = Ok it ->
+  (signed it = false \/ last_step_product_ok it (i_path i)) ->
+  steps_eval true it 0 (i_path i) = Ok (i_addr i).
+Proof.
+  intros H Hi Hu Hit Hside. apply untagged_clean in Hu.
+  destruct (inst_checkpoints (d_objects d) filter_all filter_all_blocks fuel (d_objects d) [] [] [] l i H Hi Hu
+              (filter_covers_all _)) as (rest & Hp & Hcp).
+  cbn [app] in Hp. specialize (Hcp (0, 0)). rewrite addr_sem_nil in Hcp.
+  fold (mm_struct_list filter_all 0 (d_objects d) (0, 0)) in Hcp.
+  rewrite <- (walk_struct filter_all (d_objects d) filter_all_blocks) in Hcp.
+  pose proof (walk_contains_zero filter_all (d_objects d) filter_all_blocks) as Hz.
+  unfold internal_type in Hit.
+  destruct (find_min_max_addresses filter_all (d_objects d)) as [mn mx] eqn:Emm. cbn [fst snd] in *.
+  destruct (best_internal_covers mn mx it Hit Hz) as (Hbits & Hsg & Hcov).
+  destruct (inst_path_shape (d_objects d) fuel (d_objects d) [] [] [] l i H Hi Hu) as (mid & s & Hp2 & Hmid & Hs).
+  cbn [app] in Hp2. rewrite <- Hp in Hcp.
+  assert (Hall : Forall (fun z => in_range it z = true) (checkpoints 0 (i_path i))).
+  { eapply Forall_impl; [|exact Hcp]. intros z Hz0. apply Hcov. exact Hz0. }
+  unfold i_addr. replace (addr_sem (i_path i)) with (0 + addr_sem (i_path i)) by lia.
+  apply steps_eval_exact; [lia| |exact Hall].
+  rewrite Hp2. apply Forall_app. split.
+  - eapply Forall_impl; [|exact Hmid]. intros b Hb. unfold step_ok. rewrite Hb. exact I.
+  - constructor; [|constructor]. unfold step_ok. destruct (s_rep s) as [r|] eqn:Er; [|exact I].
+    unfold rep_count in Hs. split; [exact Hs|].
+    (* the two checkpoints of the last step *)
+    rewrite Hp2, checkpoints_app in Hcp. apply Forall_app in Hcp. destruct Hcp as [_ Hcp].
+    cbn [checkpoints] in Hcp. inversion Hcp as [|? ? Ht1 Hcp']; subst. inversion Hcp' as [|? ? Hfin _]; subst.
+    unfold within in Ht1, Hfin. cbn [fst snd] in Ht1, Hfin. unfold step_sem in Hfin. rewrite Er in Hfin. unfold rep_stride in Hfin.
+    set (B := 0 + addr_sem mid) in *. clearbody B.
+    assert (Habs : 0 <= s_idx s * Z.abs (r_stride r)) by nia.
+    assert (Hprod_le : s_idx s * Z.abs (r_stride r) <= (r_count r - 1) * Z.abs (r_stride r)) by nia.
+    assert (Hidx_le : r_stride r = 0 \/ s_idx s <= s_idx s * Z.abs (r_stride r)) by nia.
+    destruct Hside as [Huns|Hprod].
+    + (* unsigned internal type: mn = 0 *)
+      rewrite Hsg in Huns. apply Z.ltb_ge in Huns. assert (mn = 0) by lia. subst mn.
+      assert (Hd : s_idx s * Z.abs (r_stride r) <= mx) by nia.
+      split; [apply Hcov; lia|]. destruct Hidx_le as [H0|Hle]; [left; exact H0|right; apply Hcov; lia].
+    + unfold last_step_product_ok in Hprod. rewrite Hp2 in Hprod.
+      rewrite last_last in Hprod. destruct s as [sa sr si]. cbn in Er. subst sr. cbn [s_idx] in *.
+      pose proof (ity_min_le_0 it) as Hmin0.
+      split; [unfold in_range; lia|]. destruct Hidx_le as [H0|Hle]; [left; exact H0|right; unfold in_range; lia].
+Qed.
+
+Lemma integer_bits_pos t : 0 < bits (integer_ity t).
+Proof. destruct t; cbn; lia. Qed.
+
+Theorem untagged_gen_addr d fuel l i it t :
+  instances fuel (d_objects d) = Ok l -> In i l -> untagged i = true ->
+  internal_type d = Ok it ->
+  (signed it = false \/ last_step_product_ok it (i_path i)) ->
+  in_range (integer_ity t) (i_addr i) = true ->
+  gen_addr true it (integer_ity t) (i_path i) = Ok (i_addr i).
+Proof.
+  intros H Hi Hu Hit Hside Hfit. unfold gen_addr.
+  rewrite (untagged_no_overflow d fuel l i it H Hi Hu Hit Hside). cbn [bind].
+  rewrite (in_range_wrap _ _ (integer_bits_pos t) Hfit). reflexivity.
+Qed.
+
+(* ================================================================================================ *)
+(** * 9. Assembled statements used by props/C12.v and props/C13.v *)
+
+Lemma first_collide_none a rest :
+  first_collide a rest = None <-> Forall (fun b => collide a b = false) rest.
+Proof.
+  induction rest as [|b t IH]; cbn.
+  - split; auto.
+  - destruct (collide a b) eqn:E.
+    + split; [discriminate|]. intros H; inversion H; congruence.
+    + rewrite IH. split; intros H; [constructor; auto|inversion H; auto].
+Qed.
+
+Lemma collision_cons a t :
+  collision (a :: t) <-> (exists b, In b t /\ collide a b = true) \/ collision t.
+Proof.
+  split.
+  - intros (i & j & x & y & Hlt & Hi & Hj & Hc).
+    destruct j as [|j]; [lia|]. cbn in Hj.
+    destruct i as [|i]; cbn in Hi.
+    + inversion Hi; subst. left. exists y. split; [eapply nth_error_In; eauto|assumption].
+    + right. exists i, j, x, y. repeat split; auto. lia.
+  - intros [(b & Hb & Hc)|(i & j & x & y & Hlt & Hi & Hj & Hc)].
+    + apply In_nth_error in Hb. destruct Hb as [j Hj]. exists O, (S j), a, b. repeat split; auto. lia.
+    + exists (S i), (S j), x, y. repeat split; auto. lia.
+Qed.
+
+Lemma not_all_false_exists a t :
+  ~ Forall (fun b => collide a b = false) t -> exists b, In b t /\ collide a b = true.
+Proof.
+  induction t as [|b t' IHt]; intros H; [exfalso; apply H; constructor|].
+  destruct (collide a b) eqn:Ec; [exists b; split; [left; reflexivity|assumption]|].
+  assert (Hn : ~ Forall (fun b0 => collide a b0 = false) t') by (intros HF; apply H; constructor; assumption).
+  destruct (IHt Hn) as (b' & Hb' & Hc'). exists b'; split; [right; assumption|assumption].
+Qed.
+
+(* the executable collision search decides [collision] *)
+Lemma find_collision_complete l : find_collision l <> None <-> collision l.
+Proof.
+  induction l as [|a t IH]; cbn.
+  - split; [congruence|]. intros (i & j & x & y & _ & Hi & _). destruct i; discriminate.
+  - rewrite collision_cons. destruct (first_collide a t) eqn:E.
+    + split; [|congruence]. intros _. left.
+      apply not_all_false_exists. rewrite <- first_collide_none. congruence.
+    + rewrite IH. split; [auto|]. intros [(b & Hb & Hc)|H]; [|assumption].
+      apply first_collide_none in E. rewrite Forall_forall in E. rewrite (E b Hb) in Hc. discriminate.
+Qed.
+
+Theorem reject_iff_collision fx dev_name objs f1 BL f2 r f3 il :
+  unique_blocks objs -> root_name_fresh dev_name objs ->
+  (fx = true \/ no_own_flag objs = true) ->
+  lower fx f1 dev_name objs = Ok BL -> overlap_pass f2 BL = Ok r -> instances f3 objs = Ok il ->
+  (r <> None <-> collision il).
+Proof.
+  intros Hu Hfr Hcls Hlow Hov Hil.
+  destruct (overlap_pass_ok _ _ _ Hov) as (ms & cl & Hroot & Hcl & ->).
+  pose proof (claimed_eq_instances fx dev_name objs f1 BL f2 ms cl f3 il Hu Hfr Hlow Hroot Hcl Hil) as HF.
+  apply reject_iff_collision_same. eapply corr_same_flag; [exact HF|].
+  destruct Hcls as [Hfx|Hno]; [left; assumption|right]. intros i Hi. eapply no_own_flag_instances; eauto.
+Qed.
+
+Theorem error_names_both fx dev_name objs f1 BL f2 e f3 il :
+  unique_blocks objs -> root_name_fresh dev_name objs ->
+  lower fx f1 dev_name objs = Ok BL -> overlap_pass f2 BL = Ok (Some e) -> instances f3 objs = Ok il ->
+  exists i j a b, (i < j)%nat /\ nth_error il i = Some a /\ nth_error il j = Some b /\
+    i_kind a = i_kind b /\ i_addr a = i_addr b /\
+    e = mk_err "address_overlap" [instance_display a; instance_display b; show_Z (i_addr a)].
+Proof.
+  intros Hu Hfr Hlow Hov Hil.
+  destruct (overlap_pass_ok _ _ _ Hov) as (ms & cl & Hroot & Hcl & Hr). symmetry in Hr.
+  pose proof (claimed_eq_instances fx dev_name objs f1 BL f2 ms cl f3 il Hu Hfr Hlow Hroot Hcl Hil) as HF.
+  destruct (pairwise_error _ _ Hr) as (i & j & ca & cb & Hlt & Hi & Hj & Hc & He & _).
+  destruct (Forall2_nth_l _ _ _ HF _ _ Hi) as (ia & Hia & (Ka & Da & Aa & _)).
+  destruct (Forall2_nth_l _ _ _ HF _ _ Hj) as (ib & Hib & (Kb & Db & Ab & _)).
+  apply conflict_spec in Hc. destruct Hc as (Hadr & Hkind & _).
+  exists i, j, ia, ib. repeat split; auto; try congruence.
+  rewrite He. unfold overlap_error. rewrite Da, Db, Aa. reflexivity.
+Qed.
+
+(* unique block names (what names_unique establishes) give the hypotheses of the C12 theorems *)
+Lemma NoDup_app_r' {A} (a b : list A) : NoDup (a ++ b) -> NoDup b.
+Proof. induction a as [|x a IH]; cbn; [auto|]. intros H; inversion H; auto. Qed.
+
+Lemma NoDup_flat_map_inj {A B} (f : A -> list B) l :
+  NoDup (flat_map f l) -> forall x y n, In x l -> In y l -> In n (f x) -> In n (f y) -> x = y.
+Proof.
+  induction l as [|a t IH]; intros Hnd x y n Hx Hy Hnx Hny; [destruct Hx|].
+  cbn in Hnd. pose proof (NoDup_app_r' _ _ Hnd) as Hnt.
+  assert (Hdisj : forall z m, In z t -> In m (f z) -> In m (f a) -> False).
+  { intros z m Hz Hmz Hma. clear -Hnd Hz Hmz Hma.
+    induction (f a) as [|h fa IHf]; [destruct Hma|]. cbn in Hnd. inversion Hnd as [|? ? Hnot Hnd']; subst.
+    destruct Hma as [->|Hma]; [|apply IHf; assumption].
+    apply Hnot. apply in_or_app. right. apply in_flat_map. exists z; auto. }
+  destruct Hx as [<-|Hx], Hy as [<-|Hy]; [reflexivity| | |eapply IH; eauto].
+  - exfalso. eapply Hdisj; eauto.
+  - exfalso. eapply Hdisj; eauto.
+Qed.
+
+Lemma unique_blocks_of_NoDup objs : NoDup (block_names objs) -> unique_blocks objs.
+Proof.
+  unfold block_names. rewrite preorder_objects_flat. intros Hnd c1 n o1 r1 objs1 c2 o2 r2 objs2 H1 H2.
+  pose proof (NoDup_flat_map_inj block_name_of _ Hnd _ _ n H1 H2 (or_introl eq_refl) (or_introl eq_refl)) as He.
+  injection He as _ _ _ He. exact He.
+Qed.
+
+Lemma root_name_fresh_of_names dev_name objs : ~ In dev_name (block_names objs) -> root_name_fresh dev_name objs.
+Proof.
+  unfold block_names. rewrite preorder_objects_flat. intros Hn c off rep ch Hin. apply Hn.
+  apply in_flat_map. exists (OBlock c dev_name off rep ch). split; [assumption|left; reflexivity].
+Qed.
+
+(* ---- C13 ---- *)
+
+Lemma big_enough_seq_none d : forall ks,
+  big_enough_seq d ks = Ok None -> Forall (fun k => big_enough_kind d k = None) ks.
+Proof.
+  induction ks as [|k t IH]; intros H; [constructor|]. cbn [big_enough_seq] in H.
+  destruct (address_type_of (d_config d) k) eqn:Et.
+  - destruct (negb (mm_ok _)); [discriminate|]. destruct (big_enough_kind d k) eqn:Ek; [discriminate|].
+    constructor; auto.
+  - constructor; [|auto]. unfold big_enough_kind. rewrite Et. reflexivity.
+Qed.
+
+Lemma accepted_inv fx fuel dev_name d :
+  accepted fx fuel dev_name d ->
+  address_types_specified d = None /\ address_types_big_enough d = None /\ exists it, internal_type d = Ok it.
+Proof.
+  unfold accepted, addr_check. destruct (address_types_specified d); [discriminate|].
+  unfold address_types_big_enough_i64.
+  destruct (big_enough_seq d [KRegister; KCommand; KBuffer]) as [[e|]|k] eqn:Es; try discriminate.
+  destruct (lower fx fuel dev_name (d_objects d)); [|discriminate].
+  destruct (negb (mm_ok _)); [discriminate|].
+  destruct (internal_type d) as [it|k] eqn:Ei; [|discriminate]. intros _.
+  split; [reflexivity|]. split; [|eauto].
+  apply big_enough_seq_none in Es. unfold address_types_big_enough. apply first_error_none. exact Es.
+Qed.
+
+Lemma missing_type_not_accepted fx fuel dev_name d o k :
+  In o (preorder_objects (d_objects d)) -> object_kind o = Some k ->
+  address_type_of (d_config d) k = None ->
+  exists e, addr_check fx fuel dev_name d = Ok (Some e) /\ e_kind e = "no_address_type"%string.
+Proof.
+  intros Hin Hk Ht. destruct (missing_type_rejected d o k Hin Hk Ht) as (e & He & Hkind).
+  exists e. split; [|exact Hkind]. unfold addr_check. rewrite He. reflexivity.
+Qed.
+
+(* "an error stating the offending bound" *)
+Lemma big_enough_error d k e :
+  big_enough_kind d k = Some e ->
+  exists t, address_type_of (d_config d) k = Some t /\
+    let mn := fst (find_min_max_addresses (filter_kind k) (d_objects d)) in
+    let mx := snd (find_min_max_addresses (filter_kind k) (d_objects d)) in
+    (mn < integer_min t /\
+     e = mk_err "address_too_low" [show_akind k; show_Z mn; show_integer t; show_Z (integer_min t)]) \/
+    (integer_max t < mx /\
+     e = mk_err "address_too_high" [show_akind k; show_Z mx; show_integer t; show_Z (integer_max t)]).
+Proof.
+  unfold big_enough_kind. destruct (address_type_of (d_config d) k) as [t|]; [|discriminate].
+  destruct (find_min_max_addresses (filter_kind k) (d_objects d)) as [mn mx]. cbn [fst snd].
+  intros H. exists t. split; [reflexivity|].
+  destruct (integer_min t <=? mn) eqn:E1; cbn [negb] in H.
+  - destruct (mx <=? integer_max t) eqn:E2; cbn [negb] in H; [discriminate|].
+    right. apply Z.leb_gt in E2. split; [lia|]. injection H as <-. reflexivity.
+  - left. apply Z.leb_gt in E1. split; [lia|]. injection H as <-. reflexivity.
+Qed.
+
+(* C13 for the class of the partial theorem, assembled *)
+Theorem c13_partial fx fuel dev_name d l :
+  simple_tree (d_objects d) = true -> accepted fx fuel dev_name d ->
+  instances fuel (d_objects d) = Ok l ->
+  forall i, In i l ->
+    fst (find_min_max_addresses (filter_kind (i_kind i)) (d_objects d)) <= i_addr i
+      <= snd (find_min_max_addresses (filter_kind (i_kind i)) (d_objects d)) /\
+    exists t it, address_type_of (d_config d) (i_kind i) = Some t /\ internal_type d = Ok it /\
+      in_range (integer_ity t) (i_addr i) = true /\
+      ((signed it = false \/ last_step_product_ok it (i_path i)) ->
+       gen_addr true it (integer_ity t) (i_path i) = Ok (i_addr i)).
+Proof.
+  intros Hs Hacc Hil i Hi. destruct (accepted_inv _ _ _ _ Hacc) as (Hsp & Hbe & it & Hit).
+  pose proof (simple_tree_untagged _ _ _ _ Hs Hil Hi) as Hu.
+  split; [eapply untagged_bounded; eauto|].
+  destruct (instance_type_specified d fuel l i Hil Hi Hsp) as (t & Ht).
+  exists t, it. pose proof (untagged_fits d fuel l i t Hil Hi Hu Hbe Ht) as Hfit.
+  repeat split; auto. intros Hside. eapply untagged_gen_addr; eauto.
+Qed.
+
+(* the same for every untagged instance of an arbitrary tree *)
+Theorem c13_untagged fx fuel dev_name d l :
+  accepted fx fuel dev_name d -> instances fuel (d_objects d) = Ok l ->
+  forall i, In i l -> untagged i = true ->
+    exists t it, address_type_of (d_config d) (i_kind i) = Some t /\ internal_type d = Ok it /\
+      in_range (integer_ity t) (i_addr i) = true /\
+      ((signed it = false \/ last_step_product_ok it (i_path i)) ->
+       gen_addr true it (integer_ity t) (i_path i) = Ok (i_addr i)).
+Proof.
+  intros Hacc Hil i Hi Hu. destruct (accepted_inv _ _ _ _ Hacc) as (Hsp & Hbe & it & Hit).
+  destruct (instance_type_specified d fuel l i Hil Hi Hsp) as (t & Ht).
+  exists t, it. pose proof (untagged_fits d fuel l i t Hil Hi Hu Hbe Ht) as Hfit.
+  repeat split; auto. intros Hside. eapply untagged_gen_addr; eauto.
+Qed.
